@@ -321,4 +321,79 @@ example : (fjspRead (fjspWrite exInst 1)).map (fun o => o.nOps ++ [o.numJobs, o.
 /-- a malformed line (operation count larger than what follows) is an error, as `parse_job_line`'s IndexError -/
 example : (fjspRead [[1, 2, 0], [2, 1, 1, 3]]).isNone = true := by decide
 
+
+/-! ### per-row capacities, the npz container model, the extracted pickling protocol -/
+
+/-- **load_data_per_row**: `CVRPEnv.load_data` divides every row of a dataset file by that row's own capacity
+(obligation on the extracted divisor `capacity[:, None]`), whatever the other rows' capacities are -/
+theorem load_data_per_row (rows : List (List Int × Frac)) (k : Nat) (hk : k < rows.length) :
+    (loadRows rows)[k]? = some (loadDemand rows[k].1 rows[k].2) := by
+  have hflag : Params.genLoadDataPerRow = true := by decide
+  simp [loadRows, loadRowsWith, hflag, hk]
+
+/-- the batch-global shortcut is a different function as soon as two rows carry different capacities -/
+example : loadRowsWith false [([4], (8, 1)), ([4], (16, 1))] ≠ loadRowsWith true [([4], (8, 1)), ([4], (16, 1))] := by decide
+
+/-- **npz_load_save**: for the container model, `load_npz_to_tensordict (save_tensordict_to_npz td) = td` — same keys in the same
+order, same dtype / shape tags and contents, same batch size — for every non-empty TensorDict whose entries all have the
+batch size as leading dimension (which TensorDict guarantees) -/
+theorem npz_decode_save {α F : Type} (c : Codec α F) (es : List (String × Arr α)) :
+    (es.map (fun e => (e.1, c.enc e.2))).map (fun e => (e.1, c.dec e.2)) = es := by
+  simp [List.map_map, Function.comp_def, c.dec_enc]
+
+theorem npz_load_save {α F : Type} (c : Codec α F) (td : TDict α) (hne : td.entries ≠ [])
+    (hb : ∀ e ∈ td.entries, e.2.shape.head? = some td.batch) : npzLoad c (npzSave c td) = some td := by
+  obtain ⟨entries, batch⟩ := td
+  cases entries with
+  | nil => exact absurd rfl hne
+  | cons e es =>
+    have h0 := hb e (by simp)
+    have hdec := npz_decode_save c (e :: es)
+    simp only [List.map_cons, c.dec_enc] at hdec
+    simp only [npzSave, List.map_cons, npzLoad, c.dec_enc]
+    cases hs : e.2.shape with
+    | nil => simp [hs] at h0
+    | cons b rest =>
+      simp only [hs, List.head?_cons, Option.some.injEq] at h0
+      subst h0
+      rw [hdec]
+      have hall : ((e :: es).all fun e => e.2.shape.head? == some b) = true := by
+        simp only [List.all_eq_true, beq_iff_eq]; exact hb
+      simp only [hall, if_true]
+
+/-- an empty TensorDict cannot be re-loaded (`list(x_dict.keys())[0]` raises) -/
+theorem npz_load_empty {α F : Type} (c : Codec α F) (b : Nat) : npzLoad c (npzSave c ({ entries := [], batch := b } : TDict α)) = none := rfl
+
+/-- the loader re-derives the batch size from the first key only: shape-level statement used by the driver -/
+theorem npzBatch_of_uniform (shapes : List (List Nat)) (b : Nat) (hne : shapes ≠ [])
+    (h : ∀ sh ∈ shapes, sh.head? = some b) : npzBatch shapes = some b := by
+  cases shapes with
+  | nil => exact absurd rfl hne
+  | cons s0 ss =>
+    have h0 := h s0 (by simp)
+    cases s0 with
+    | nil => simp at h0
+    | cons b0 r =>
+      simp only [List.head?_cons, Option.some.injEq] at h0; subst h0
+      simp only [npzBatch]
+      have : (((b0 :: r) :: ss).all fun sh => sh.head? == some b0) = true := by
+        simp only [List.all_eq_true, beq_iff_eq]; exact h
+      simp [this]
+
+/-- **setstate_getstate_extracted**: with the statements found in the source (`state = self.__dict__.copy()`,
+`self.__dict__.update(state)`, `self.rng.set_state(state["rng"])` — obligations on the extracted flags) pickling and
+restoring is the identity on the whole attribute dictionary and the generator state -/
+theorem setstate_getstate_extracted {V R : Type} (seed0 : R) (setState : R → R → R) (hset : ∀ g s, setState g s = s)
+    (e : EnvObj V R) :
+    setstateP Params.genSetstateUpdatesDict Params.genSetstateRestoresRng seed0 setState
+      (getstateP Params.genGetstateCopiesDict e) = e := by
+  have h : Params.genSetstateUpdatesDict = true ∧ Params.genSetstateRestoresRng = true ∧ Params.genGetstateCopiesDict = true ∧
+      Params.genGetstateRngToState = true := by decide
+  cases e; simp [setstateP, getstateP, h.1, h.2.1, h.2.2.1, hset]
+
+/-- each of the three statements is needed -/
+example : (setstateP (V := Nat) (R := Nat) true false 0 (fun _ s => s) (getstateP true ⟨[("a", 1)], 7⟩)).rng ≠ 7 := by decide
+example : (setstateP (V := Nat) (R := Nat) false true 0 (fun _ s => s) (getstateP true ⟨[("a", 1)], 7⟩)).dict ≠ [("a", 1)] := by decide
+example : (setstateP (V := Nat) (R := Nat) true true 0 (fun _ s => s) (getstateP false ⟨[("a", 1)], 7⟩)).dict ≠ [("a", 1)] := by decide
+
 end Rl4co.Gen.Persist
